@@ -40,6 +40,8 @@ func (h *receivedPacketHistory) ReceivedPacket(p protocol.PacketNumber) bool /* 
 	// This is a DoS defense against a peer that sends us too many gaps.
 	if len(h.ranges) > protocol.MaxNumAckRanges {
 		h.ranges = slices.Delete(h.ranges, 0, len(h.ranges)-protocol.MaxNumAckRanges)
+		// Packets below the oldest range we still track can't be told apart from duplicates anymore.
+		h.deletedBelow = max(h.deletedBelow, h.ranges[0].Start)
 	}
 	return isNew
 }
